@@ -161,10 +161,11 @@ inline Case gen_case(Rng& r, bool thorough) {
   } else {                         // headers announcing 2^31 .. 2^34 data bytes, file lengths congruent to the right one modulo powers of two
     HB b = valid_hb(r, w, h, true); c.stratum = "hdr-mod32"; c.kind = 0;
     static const std::vector<std::pair<long, long>> dims = {{4096, 524291}, {65536, 32769}, {32768, 65539}, {43200, 49711}, {21600, 99421}, {2, 1073741825}, {2, 1073741823}, {46342, 46341},
-      {65536, 65537}, {65538, 65537}, {1073741824, 3}, {2147483646, 3}, {4, 536870913}, {32768, 32769}, {16384, 65537}, {131072, 32769}};
+      {65536, 65537}, {65538, 65537}, {1073741824, 3}, {1073741826, 3}, {2147483646, 3}, {4, 536870913}, {32768, 32769}, {16384, 65537}, {131072, 32769}};
     auto d = r.pick(dims); if (r.irange(0, 4) == 0) { d.first = 2 * long(r.irange(16384, 70000)); d.second = 2 * long(r.irange(16384, 70000)) + 1; }
     b.size = std::to_string(d.first) + " " + std::to_string(d.second) + "\n"; c.header = b.str();
     uint64_t L = need(d.first, d.second);
+    const bool toolarge = d.first > (1l << 30) || d.second > (1l << 30);   // refused whatever the length ("Raster size too large")
     int k = r.irange(0, 11);
     uint64_t cap = thorough ? (1ull << 36) : (1ull << 34);
     switch (k) {
@@ -178,6 +179,7 @@ inline Case gen_case(Rng& r, bool thorough) {
     case 9: c.datalen = L / 2; c.expect = 0; break;
     default: c.datalen = L; c.expect = 1; break; }                                                               // the full-size raster (sparse file)
     if (c.datalen > cap) { c.datalen = L & 0xffffffffull; c.expect = (c.datalen == L) ? 1 : 0; }
+    if (toolarge) c.expect = 0;
   }
   return c;
 }
